@@ -19,35 +19,42 @@ Open Scope Z_scope.
 Definition used_val (t dm v:Z) : bool := is_data t dm v || is_eoc t v.
 Definition was_ok (t dm v:Z) : Prop := v = 0 \/ used_val t dm v = true.
 Definition chg (t dm M:Z) (f f':list Z) : Prop :=
-  lenZ f' = lenZ f /\ forall i, 0 <= i -> nthZ f' i <> nthZ f i -> 2 <= i <= M /\ was_ok t dm (nthZ f i).
+  lenZ f' = lenZ f /\ forall i, 0 <= i -> nthZ f' i <> nthZ f i ->
+    2 <= i <= M /\ was_ok t dm (nthZ f i) /\ 0 <= nthZ f' i <= Gen.END_OF_CLUSTER_MAX t.
 
 Lemma chg_refl t dm M f : chg t dm M f f.
 Proof. split; [reflexivity|]. intros i _ H. congruence. Qed.
 Lemma chg_trans t dm M a b c : chg t dm M a b -> chg t dm M b c -> chg t dm M a c.
 Proof.
   intros [L1 H1] [L2 H2]. split; [congruence|]. intros i Hi Hne.
-  destruct (Z.eq_dec (nthZ b i) (nthZ a i)) as [E|E]; [|apply H1; assumption].
-  rewrite <- E. apply H2; [exact Hi|congruence].
+  destruct (Z.eq_dec (nthZ c i) (nthZ b i)) as [Ecb|Ecb].
+  - rewrite Ecb in *. apply H1; assumption.
+  - destruct (H2 i Hi Ecb) as (R2 & W2 & V2). destruct (Z.eq_dec (nthZ b i) (nthZ a i)) as [E|E].
+    + rewrite <- E. split; [exact R2|]. split; [exact W2|exact V2].
+    + destruct (H1 i Hi E) as (R1 & W1 & _). split; [exact R1|]. split; [exact W1|exact V2].
 Qed.
-Lemma chg_then_upd t dm M f f1 k v : chg t dm M f f1 -> 2 <= k <= M -> was_ok t dm (nthZ f k) -> chg t dm M f (updZ f1 k v).
+Lemma chg_then_upd t dm M f f1 k v : chg t dm M f f1 -> 2 <= k <= M -> was_ok t dm (nthZ f k) -> 0 <= v <= Gen.END_OF_CLUSTER_MAX t ->
+  chg t dm M f (updZ f1 k v).
 Proof.
-  intros [L H] Hk Hw. split; [unfold lenZ in *; rewrite updZ_length; exact L|]. intros i Hi Hne.
-  rewrite nthZ_updZ_cases in Hne by lia. destruct ((i =? k) && (k <? lenZ f1)) eqn:E.
-  - assert (i = k) by lia. subst i. split; assumption.
+  intros [L H] Hk Hw Hv. split; [unfold lenZ in *; rewrite updZ_length; exact L|]. intros i Hi Hne.
+  rewrite nthZ_updZ_cases in Hne |- * by lia. destruct ((i =? k) && (k <? lenZ f1)) eqn:E.
+  - assert (i = k) by lia. subst i. split; [exact Hk|]. split; [exact Hw|exact Hv].
   - apply H; assumption.
 Qed.
-Lemma chg_link t dm M f eoc cs : forall f1, chg t dm M f f1 -> Forall (fun c => 2 <= c <= M /\ nthZ f c = 0) cs -> chg t dm M f (link_chain f1 cs eoc).
+Lemma chg_link t dm M f cs : 0 <= Gen.END_OF_CLUSTER_MAX t -> forall f1, chg t dm M f f1 ->
+  Forall (fun c => 2 <= c <= M /\ nthZ f c = 0 /\ c <= Gen.END_OF_CLUSTER_MAX t) cs -> chg t dm M f (link_chain f1 cs (Gen.END_OF_CLUSTER_MAX t)).
 Proof.
-  induction cs as [|c [|d r] IH]; intros f1 H Hf; [exact H| |].
-  - cbn [link_chain]. inversion Hf as [|? ? [Hc H0] _]; subst. apply chg_then_upd; [exact H|exact Hc|left; exact H0].
-  - change (link_chain f1 (c :: d :: r) eoc) with (link_chain (updZ f1 c d) (d :: r) eoc).
-    inversion Hf as [|? ? [Hc H0] Hr]; subst. apply IH; [|exact Hr]. apply chg_then_upd; [exact H|exact Hc|left; exact H0].
+  intros He. induction cs as [|c [|d r] IH]; intros f1 H Hf; [exact H| |].
+  - cbn [link_chain]. inversion Hf as [|? ? (Hc & H0 & _) _]; subst. apply chg_then_upd; [exact H|exact Hc|left; exact H0|lia].
+  - change (link_chain f1 (c :: d :: r) (Gen.END_OF_CLUSTER_MAX t)) with (link_chain (updZ f1 c d) (d :: r) (Gen.END_OF_CLUSTER_MAX t)).
+    inversion Hf as [|? ? (Hc & H0 & _) Hr]; subst. apply IH; [|exact Hr]. inversion Hr as [|? ? (Hd & _ & Hd2) _]; subst.
+    apply chg_then_upd; [exact H|exact Hc|left; exact H0|lia].
 Qed.
-Lemma chg_free t dm M f v cs : forall f1, chg t dm M f f1 -> Forall (fun c => 2 <= c <= M /\ was_ok t dm (nthZ f c)) cs ->
+Lemma chg_free t dm M f v cs : 0 <= v <= Gen.END_OF_CLUSTER_MAX t -> forall f1, chg t dm M f f1 -> Forall (fun c => 2 <= c <= M /\ was_ok t dm (nthZ f c)) cs ->
   chg t dm M f (fold_left (fun g cl => updZ g cl v) cs f1).
 Proof.
-  induction cs as [|c r IH]; intros f1 H Hf; [exact H|]. cbn [fold_left]. inversion Hf as [|? ? [Hc Hw] Hr]; subst.
-  apply IH; [|exact Hr]. apply chg_then_upd; assumption.
+  intros He. induction cs as [|c r IH]; intros f1 H Hf; [exact H|]. cbn [fold_left]. inversion Hf as [|? ? [Hc Hw] Hr]; subst.
+  apply IH; [|exact Hr]. apply chg_then_upd; [assumption|assumption|assumption|lia].
 Qed.
 
 (** what the follower yields holds a link or an end mark *)
@@ -62,6 +69,8 @@ Proof.
   - destruct (is_eoc t (nthZ fat i)) eqn:Ee; cbn [fst] in H; [|simpl in H; tauto].
     destruct H as [<-|[]]. unfold used_val. rewrite Ee. apply orb_true_r.
 Qed.
+Lemma vt_eoc t : vt t -> 0 <= Gen.END_OF_CLUSTER_MAX t /\ Gen.MAX_DATA_CLUSTER t <= Gen.END_OF_CLUSTER_MAX t /\ 0 <= Gen.FREE_CLUSTER t <= Gen.END_OF_CLUSTER_MAX t.
+Proof. intros Hv. destruct (vt_consts t Hv) as (_ & Hf & H3 & H4 & _). lia. Qed.
 Lemma used_nonzero t dm v : vt t -> used_val t dm v = true -> v <> 0.
 Proof.
   intros Hv H. destruct (vt_consts t Hv) as (Hmin & _ & H3 & H4 & _). unfold used_val, is_data, is_eoc in H.
@@ -197,14 +206,15 @@ Proof.
   eapply IH; [exact Hp1|rewrite E3; exact Hr|exact H].
 Qed.
 
-Lemma allocate_free s size e cs s' : vt (ft s) -> allocate s size e = Ok (cs, s') -> Forall (fun c => 2 <= c <= max_cluster s /\ nthZ (s_fat s) c = 0) cs.
+Lemma allocate_free s size e cs s' : vt (ft s) -> allocate s size e = Ok (cs, s') ->
+  Forall (fun c => 2 <= c <= max_cluster s /\ nthZ (s_fat s) c = 0 /\ c <= Gen.END_OF_CLUSTER_MAX (ft s)) cs.
 Proof.
   intros Hv H. unfold allocate in H. destruct (s_ro s); [discriminate|].
   destruct (alloc_scan _ _ _ _ _ _) as [l j] eqn:Es. destruct (negb _); [discriminate|].
   assert (cs = l) by (destruct e; [destruct (erase_clusters _ l); inversion H; reflexivity|inversion H; reflexivity]). subst l.
   apply Forall_forall. intros x Hx.
   pose proof (alloc_scan_spec (s_fat s) (ft s) (max_cluster s) (Z.to_nat (lenZ (s_fat s) - Z.max 0 (s_hint s))) (Z.max 0 (s_hint s)) (Z.to_nat (Gen.calc_num_clusters (s_p s) size)) x) as Hsp.
-  rewrite Es in Hsp. specialize (Hsp Hx). destruct (vt_consts _ Hv) as (Hmin & Hfree & _). lia.
+  rewrite Es in Hsp. specialize (Hsp Hx). destruct (vt_consts _ Hv) as (Hmin & Hfree & _). destruct (vt_eoc _ Hv) as (_ & He & _). lia.
 Qed.
 Lemma J_allocate s size e cs s' : pre s -> allocate s size e = Ok (cs, s') -> J s s'.
 Proof.
@@ -212,7 +222,7 @@ Proof.
   destruct (alloc_scan _ _ _ _ _ _) as [l j]. destruct (negb _); [discriminate|].
   assert (cs = l) by (destruct e; [destruct (erase_clusters _ l); inversion H; reflexivity|inversion H; reflexivity]). subst l.
   assert (J1 : J s (upd_fat s (link_chain (s_fat s) cs (Gen.END_OF_CLUSTER_MAX (ft s))) j)).
-  { apply J_newfat. apply chg_link; [apply chg_refl|exact Hfr]. }
+  { apply J_newfat. apply chg_link; [apply (vt_eoc _ (proj1 Hp))|apply chg_refl|exact Hfr]. }
   destruct e.
   - destruct (erase_clusters _ cs) as [s2|] eqn:E; [|discriminate]. cbn [bind] in H. inversion H; subst.
     eapply J_trans; [exact J1|]. eapply J_erase_clusters; [eapply pre_J; eassumption| |exact E].
@@ -229,7 +239,7 @@ Qed.
 Lemma J_free_chain s c s' : pre s -> free_chain s c = Ok s' -> J s s'.
 Proof.
   intros Hp. unfold free_chain. destruct (s_ro s); [discriminate|]. unfold chain_all. destruct (chain s c) as [l ok] eqn:Ec. destruct ok; [|discriminate]. cbn [bind].
-  intros H; inversion H; subst. apply J_newfat. apply chg_free; [apply chg_refl|eapply chain_members; eassumption].
+  intros H; inversion H; subst. apply J_newfat. apply chg_free; [apply (vt_eoc _ (proj1 Hp))|apply chg_refl|eapply chain_members; eassumption].
 Qed.
 
 Lemma J_wdc s data c e s' : pre s -> write_data_to_cluster s data c e = Ok s' -> J s s'.
@@ -240,12 +250,14 @@ Proof.
   assert (J1 : J s s1).
   { destruct (_ <=? lenZ ch); [inversion E1; subst; apply J_refl|]. destruct ok; [|discriminate]. cbn [negb] in E1.
     destruct (allocate s _ e) as [[l s2]|] eqn:Ea; [|discriminate]. cbn [bind] in E1. inversion E1; subst.
-    pose proof (J_allocate _ _ _ _ _ Hp Ea) as Ja.
+    pose proof (J_allocate _ _ _ _ _ Hp Ea) as Ja. pose proof (allocate_free _ _ _ _ _ (proj1 Hp) Ea) as Hfr.
+    assert (Hhd : 0 <= hd 0 l <= Gen.END_OF_CLUSTER_MAX (ft s)).
+    { destruct l as [|x q]; cbn [hd]; [destruct (vt_eoc _ (proj1 Hp)); lia|]. inversion Hfr as [|? ? (A & _ & B) _]; subst. lia. }
     assert (Hne : ch <> []) by (unfold chain in Ec; eapply chain_go_nonempty; exact Ec).
     pose proof (chain_members _ _ _ _ Hp Ec) as Hm. rewrite Forall_forall in Hm. destruct (Hm _ (last_in ch Hne)) as [Hk Hw].
     destruct Ja as (A1 & A2 & A3 & A4 & A5 & A6 & l0 & A7 & A8).
     do 5 (split; [assumption|]). split; [|exists l0; split; assumption].
-    apply (chg_then_upd _ _ _ _ _ _ _ A6 Hk Hw). }
+    apply (chg_then_upd _ _ _ _ _ _ _ A6 Hk Hw Hhd). }
   destruct (chain s1 c) as [ch1 ok1] eqn:Ec1.
   pose proof (pre_J _ _ Hp J1) as Hp1. eapply J_trans; [exact J1|]. eapply J_write_chunks; [exact Hp1| |exact H].
   eapply Forall_impl; [|eapply chain_members; eassumption]. intros x [Hx _]. exact Hx.
@@ -348,12 +360,13 @@ Proof. intros Hp H. unfold h_close in H. open_all s; Jchain2 s Hp. Qed.
 (** the cut of a shrinking truncate: free the chain behind the [keep]-th cluster, end the chain at the one before *)
 Lemma nthZ_In (l:list Z) j : 0 <= j < lenZ l -> In (nthZ l j) l.
 Proof. intros H. unfold nthZ. apply nth_In. unfold lenZ in H. lia. Qed.
-Lemma J_cut a x c cs ok j v h : pre a -> chain a c = (cs, ok) -> 0 <= j < lenZ cs -> J a x -> J a (upd_fat x (updZ (s_fat x) (nthZ cs j) v) h).
+Lemma J_cut a x c cs ok j v h : pre a -> chain a c = (cs, ok) -> 0 <= j < lenZ cs -> 0 <= v <= Gen.END_OF_CLUSTER_MAX (ft a) -> J a x ->
+  J a (upd_fat x (updZ (s_fat x) (nthZ cs j) v) h).
 Proof.
-  intros Hp Ec Hj (A1 & A2 & A3 & A4 & A5 & A6 & l0 & A7 & A8).
+  intros Hp Ec Hj Hv (A1 & A2 & A3 & A4 & A5 & A6 & l0 & A7 & A8).
   pose proof (chain_members _ _ _ _ Hp Ec) as Hm. rewrite Forall_forall in Hm. destruct (Hm _ (nthZ_In cs j Hj)) as [Hk Hw].
   do 5 (split; [assumption|]). split; [|exists l0; split; assumption].
-  apply (chg_then_upd _ _ _ _ _ _ _ A6 Hk Hw).
+  apply (chg_then_upd _ _ _ _ _ _ _ A6 Hk Hw Hv).
 Qed.
 Ltac Jstep3 a Hp :=
   first [ Jstep2 a Hp
@@ -368,7 +381,8 @@ Proof.
   | Hr : J s ?x, Ec : chain s _ = (?cs, _), Hlt : (?k <? lenZ ?cs) = true,
     E : flush_fat (upd_fat ?x (updZ (s_fat ?x) (nthZ ?cs ?j) ?v) ?hh) = Ok ?y |- _ =>
       assert (Hj : 0 <= j < lenZ cs) by lia;
-      pose proof (J_cut s x _ cs _ j v hh Hp Ec Hj Hr) as Jc;
+      assert (Hvv : 0 <= v <= Gen.END_OF_CLUSTER_MAX (ft s)) by (destruct (vt_eoc _ (proj1 Hp)); lia);
+      pose proof (J_cut s x _ cs _ j v hh Hp Ec Hj Hvv Hr) as Jc;
       pose proof (J_trans _ _ _ Jc (J_flush_fat _ _ (pre_J _ _ Hp Jc) E))
   end; repeat Jstep3 s Hp; assumption.
 Qed.
@@ -420,7 +434,7 @@ Theorem history_fat_frame s s' : pre s -> clos_refl_trans st wstep s s' ->
 Proof.
   intros Hp H. destruct (history_J _ _ Hp H) as (_ & _ & _ & _ & _ & [L C] & _).
   assert (Hkeep : forall i, 0 <= i -> ~ (2 <= i <= max_cluster s /\ was_ok (ft s) (dmax s) (nthZ (s_fat s) i)) -> nthZ (s_fat s') i = nthZ (s_fat s) i).
-  { intros i Hi Hn. destruct (Z.eq_dec (nthZ (s_fat s') i) (nthZ (s_fat s) i)) as [E|E]; [exact E|]. exfalso. apply Hn. apply C; assumption. }
+  { intros i Hi Hn. destruct (Z.eq_dec (nthZ (s_fat s') i) (nthZ (s_fat s) i)) as [E|E]; [exact E|]. exfalso. apply Hn. destruct (C i Hi E) as (R & W & _). split; assumption. }
   split; [exact L|]. split; [apply Hkeep; lia|]. split; [apply Hkeep; lia|]. split; [|split].
   - intros i Hi. destruct (Z_lt_le_dec i 0) as [Hn|Hn]; [|apply Hkeep; lia].
     unfold nthZ. replace (Z.to_nat i) with (Z.to_nat 0) by lia. apply (Hkeep 0); lia.
